@@ -34,7 +34,21 @@ def _c07(tier, seed):
     return ps + families.canaries_clone(ps)
 
 
+def _c08(tier, seed):
+    ps = families.c08(tier, seed)
+    return ps + families.canaries_default(ps)
+
+
 PROPS = {
+    "C08": {
+        "family": _c08,
+        "bounds": {"quick": "16 literal kinds x 2 spellings x position in 1-3 field structs; 3-literal neighbours; type-level expressions x 3 spellings; enums 1-4 variants x every marker position x 2 kind rotations; unions 1-3 fields x marker x with/without expression; with/without new",
+                   "thorough": "all 5 spellings, 5 kind rotations, 5-variant enums"},
+        "trusted": ["vstd specs for Default::default on primitives and From/Into between integers"],
+        "assumptions": ["no inputs: the quantifier is over programs only; each proof is an evaluation",
+                        "float / str / String / user-From / union values are decided by Kani only"],
+        "explanation": "generated Default::default (and new) verified verbatim against the designated value",
+    },
     "C07": {
         "family": _c07,
         "bounds": {"quick": "structs named/tuple n<=3 all 2^n {own clone, method} x {Clone, Clone+Copy}; enums 1-4 variants x {Clone, Clone+Copy}",
